@@ -1048,12 +1048,21 @@ func (x *Exec) closureAt(st *State, nx string) {
 		fm := r.fmeta[k]
 		h := vc.get(st, k)
 		tgt := "(select " + h + " x)"
-		if fm.kind == "slice" {
+		guard := "true"
+		switch fm.kind {
+		case "slice":
 			tgt = "(s_arr " + tgt + ")"
-		} else {
+		case "any":
+			if !vc.gdecl["is_ref_type"] {
+				vc.gdecl["is_ref_type"] = true
+				vc.global(func() { vc.raw("(declare-fun is_ref_type (Int) Bool)") })
+			}
+			guard = "(is_ref_type (a_typ " + tgt + "))"
+			tgt = "(a_val " + tgt + ")"
+		default:
 			tgt = "(root " + tgt + ")"
 		}
-		vc.assert(fmt.Sprintf("(forall ((x Int)) (! (=> (= (select %s x) %s) (< %s %s)) :pattern ((select %s x))))", rt, fm.tid, tgt, nx, h))
+		vc.assert(fmt.Sprintf("(forall ((x Int)) (! (=> (and (= (select %s x) %s) %s) (< %s %s)) :pattern ((select %s x))))", rt, fm.tid, guard, tgt, nx, h))
 	}
 }
 
